@@ -31,6 +31,20 @@ ENTRY_SRC = {
         """
         self.alpha = alpha
 ''',
+    "Fob": '''class Fob(object):
+    """
+    Foo things.
+    """
+
+    def __init__(self, alpha: int = 5, beta: str = "x", kappa: float = 0.5):
+        """
+        Make a Foo
+
+        :param alpha: the alpha
+        :param beta: the beta
+        """
+        self.alpha = alpha
+''',
     "Baz": '''class Baz(object):
     """
     Baz things.
@@ -64,7 +78,7 @@ ENTRY_SRC = {
     return eta
 ''',
 }
-PARAMS = {"Foo": ["alpha", "beta"], "Baz": ["gamma", "delta"], "bar": ["eps", "zeta"], "qux": ["eta", "theta"]}
+PARAMS = {"Fob": ["alpha", "beta", "kappa"], "Foo": ["alpha", "beta"], "Baz": ["gamma", "delta"], "bar": ["eps", "zeta"], "qux": ["eta", "theta"]}
 IMPORT_LINES = ["import os", "from collections import OrderedDict"]
 PREPEND = "PREPENDED_MARK = 1\n"
 
@@ -192,7 +206,8 @@ def run(prop="C19", propose=False, replay=None):
     if not thorough:
         ex = [r for r in rows if r["cfg"]["exists"]]
         ne = [r for r in rows if not r["cfg"]["exists"]]
-        rows = rnd.sample(ex, 12) + rnd.sample(ne, 240)
+        twins = [r for r in ne if "Foo" in r["cfg"]["mapping"] and "Fob" in r["cfg"]["mapping"]]
+        rows = rnd.sample(ex, 12) + rnd.sample(ne, 200) + rnd.sample(twins, 60)
     recs = [{"id": "g%d" % i, "cfg": r["cfg"]} for i, r in enumerate(rows)]
     if replay:
         with open(replay) as f:
@@ -210,7 +225,7 @@ def run(prop="C19", propose=False, replay=None):
             r = by[tid]
             c = r["cfg"]
             feat = {"k": "gen", "cl": cl, "type": c["type"], "tpl": c["tpl"], "prepend": c["prepend"], "imports": c["imports"], "exists": c["exists"], "alias": c["alias"],
-                    "n": len(c["mapping"]), "has_class": any(n in ("Foo", "Baz") for n in c["mapping"]), "has_function": any(n in ("bar", "qux") for n in c["mapping"]),
+                    "n": len(c["mapping"]), "has_class": any(n in ("Foo", "Baz", "Fob") for n in c["mapping"]), "twins": ("Foo" in c["mapping"] and "Fob" in c["mapping"]), "has_function": any(n in ("bar", "qux") for n in c["mapping"]),
                     "has_unannotated": any(n in ("Baz", "qux") for n in c["mapping"]), "status": r["status"], "second": r["second"],
                     "exc": (r["stderr"].strip().splitlines()[-1].split(":")[0] if r["status"] == "internal" and r["stderr"].strip() else "none"), "comps": []}
             if matcher.match(feat) is None:
